@@ -12,8 +12,8 @@ ID = "C18"
 COQ_FILES = ["C18/Model.v", "C18/Spec.v", "C18/Check.v", "C18/Proofs.v", "C18/Property.v"]
 COQ_PRELUDE = ("From Coq Require Import ZArith List Bool.\nImport ListNotations.\n"
                "From KD Require Import C18.Model C18.Spec C18.Check.\nOpen Scope Z_scope.\n")
-COQ_CHECK = "check"
-COQ_CASE_TYPE = "case_t"
+COQ_CHECK = "xcheck"
+COQ_CASE_TYPE = "xcase_t"
 SHARD = 250
 TRUSTED = [
     "hand-written model coq/C18/Model.v of KDCollatorBase._call_impl, the three entry points and "
@@ -32,6 +32,16 @@ TRUSTED = [
     "the values they put into the context are opaque placeholders in the model (their content is C10 / C17's subject); "
     "place, shape, dtype, finiteness of those items, every other item exactly, the exact key set of the context and the "
     "operation trace are checked",
+    "family 'shared' (construction histories on shared member objects): the member collators are built once, 2-3 entry "
+    "points (KDComposeCollator / KDSingleCollatorWrapper / the member itself called standalone with its own constructor "
+    "configuration) with different dataset_mode / return_ctx are built around them and called in random order, some several "
+    "times, on batches of their own mode; every call is rendered as an ordinary case of the entry point's OWN configuration "
+    "and judged by Check.check against the model of a FRESH configuration (theorem "
+    "entry_point_independent_of_other_entry_points: that is what the object-level model Model.run_hist computes; that the "
+    "real constructors / calls do not write into the member objects is checked here, not proved): Check.xcheck also "
+    "compares the members' (dataset_mode, return_ctx) after every step with the initial ones (code 8) and the dataset_mode "
+    "every member was handed with the entry point's own (code 9); the Python oracle additionally compares every plain "
+    "attribute of every member and of every entry point built so far",
     "DataLoader runs (family 'loader': the pipeline as collate_fn of a real torch DataLoader over the ModeWrapper, 0 / 2 forked "
     "workers, batch sizes 1-4, drop_last) are judged by the Python oracle only (no operation trace from worker processes)",
 ]
@@ -54,7 +64,11 @@ RULE = ("random modes of 1-4 items (Python int / float, 0-d tensor, sequence ten
         "{identity,mark,ctx-write,pad} (70% well-ordered), entries compose/single/wrapper/direct-pad; directed: every mode list up to "
         "length 3, the padding collator over every rank/dtype/length profile through every entry; family 'real': the package's "
         "own collators (mix, dino mask, ijepa mask, MAE-finetune mix) as members over image/one-hot/index/scalar items; family "
-        "'loader': real DataLoader runs (quick 6, thorough 160); non-trivial = at least one member call observed; distinct by "
+        "'loader': real DataLoader runs (quick 6, thorough 160); family 'shared': 1-3 member objects, 2-3 entry points "
+        "(compose / wrapper / standalone member) around one shared member with different dataset_mode (sub-permutations of the "
+        "items) and / or return_ctx, members with / without a standalone configuration of their own, builds and calls "
+        "interleaved (40%) or all built first, 1-3 calls per entry point on batches of 1-4 samples in random order "
+        "(quick 300 + directed, thorough 3000); non-trivial = at least one member call observed; distinct by "
         "(entry, rc, member modes+kinds, item kinds incl. dtype/rank/length profile, profile)")
 
 MODES = {"none": "MNone", "before": "MBefore", "after": "MAfter"}
@@ -179,6 +193,143 @@ def gen_case(rng, big=False):
             "members": members, "scalar_tensor": rng.random() < 0.4, "profile": profile}
 
 
+def gen_shared_case(rng, big=False):
+    """CONSTRUCTION HISTORIES on shared member objects: the same member collator instances are used to build 2-3 entry
+    points (KDComposeCollator / KDSingleCollatorWrapper / the member called standalone with its own constructor
+    configuration) that differ in dataset_mode and / or return_ctx; builds and calls are interleaved, the calls come in
+    random order, some several times, on batches of different sizes of the entry point's own mode.  Every entry point must
+    behave like a FRESH configuration of its own (dataset_mode, return_ctx, member list)."""
+    while True:
+        base = gen_case(rng, big)
+        if base["entry"] == "direct" or len({tuple(k for k, _ in cx) for cx in base["ctx"]}) != 1:
+            continue
+        break
+    pool = list(base["items"])
+    n_members = rng.choice([1, 1, 2, 2, 3])
+    members = []
+    for _ in range(n_members):
+        md = rng.choice(["none", "before", "before", "after"])
+        kind = rng.choice(["id", "mark", "mark", "ctxw"])
+        arg = rng.randint(1, 9) if kind != "id" else 0
+        if md == "none" and base["profile"] == "ragged" and rng.random() < 0.6:
+            kind, arg = "pad", 0
+        members.append([md, kind, arg])
+    shared = rng.randrange(n_members)           # the member every entry point is built around
+
+    def gen_items():
+        k = rng.randint(1, len(pool))
+        return rng.sample(pool, k)
+
+    cfgs = [(gen_items(), rng.random() < 0.5)]
+    n_eps = rng.choice([2, 2, 2, 3])
+    while len(cfgs) < n_eps:
+        it0, rc0 = cfgs[rng.randrange(len(cfgs))]
+        r = rng.random()
+        if r < 0.4:
+            cfg = (list(it0), not rc0)                              # the same mode with / without contexts
+        elif r < 0.7:
+            cfg = (gen_items(), rc0)                                # another dataset mode
+        elif r < 0.9:
+            cfg = (gen_items(), not rc0)
+        else:
+            cfg = (list(it0), rc0)                                  # control: the same configuration twice
+        cfgs.append(cfg)
+    mcfg = [None] * n_members
+    eps = []
+    for items, rc in cfgs:
+        entry = rng.choice(["wrapper", "wrapper", "wrapper", "compose", "compose", "single"])
+        if entry == "single" and mcfg[shared] is not None:
+            entry = "wrapper"
+        if entry == "single":
+            mcfg[shared] = [list(items), rc]                        # a member configured for standalone use
+            sel = [shared]
+        elif entry == "wrapper":
+            sel = [shared]
+        else:
+            others = [i for i in range(n_members) if i != shared]
+            sel = rng.sample(others, rng.randint(0, len(others))) + [shared]
+            if rng.random() < 0.7:
+                # keep the members' order None* [(before|after) before*] that a call accepts
+                rank = {"none": 0, "after": 1, "before": 2}
+                sel.sort(key=lambda i: (rank[members[i][0]], i))
+                if sum(1 for i in sel if members[i][0] == "after") > 1:
+                    first = next(i for i in sel if members[i][0] == "after")
+                    sel = [i for i in sel if members[i][0] != "after" or i == first]
+                    if shared not in sel:
+                        sel = [shared]
+            else:
+                rng.shuffle(sel)
+        eps.append({"entry": entry, "items": list(items), "rc": rc, "sel": sel})
+    for k in range(n_members):
+        if mcfg[k] is None and rng.random() < 0.3:
+            mcfg[k] = [gen_items(), rng.random() < 0.5]             # configured for standalone use, never used that way
+    # script: every entry point is built before its first call; other builds and calls may come in between
+    rows_n = len(base["rows"])
+    calls = []
+    for j in range(len(eps)):
+        for _ in range(rng.choice([1, 1, 2, 3])):
+            B = rng.choice([1, 2, 2, 3, 4])
+            order = [rng.randrange(rows_n) for _ in range(B)] if rng.random() < 0.4 else rng.sample(range(rows_n), min(B, rows_n))
+            calls.append(["call", j, order])
+    rng.shuffle(calls)
+    script = []
+    if rng.random() < 0.6:
+        script = [["build", j] for j in range(len(eps))] + calls    # all built first (typical: one loader per config)
+    else:
+        pending = list(range(len(eps)))
+        built = set()
+        rest = list(calls)
+        while rest or pending:
+            ready = [c for c in rest if c[1] in built]
+            if pending and (not ready or rng.random() < 0.5):
+                j = pending.pop(0)
+                built.add(j)
+                script.append(["build", j])
+            else:
+                c = rng.choice(ready)
+                rest.remove(c)
+                script.append(c)
+    return {"family": "shared", "items": pool, "kinds": base["kinds"], "rows": base["rows"], "ctx": base["ctx"],
+            "order": [], "rc": False, "entry": "shared", "members": members, "mcfg": mcfg, "eps": eps, "script": script,
+            "scalar_tensor": base["scalar_tensor"], "profile": base["profile"]}
+
+
+def directed_shared():
+    """the typical histories: the collators registered on a dataset wrapped once for a loader with contexts and once for a
+    loader without; for two dataset modes; a member configured for standalone use and wrapped later; wrapper next to compose"""
+    out = []
+    rows = [{"f0": [1, 2], "f1": 10}, {"f0": [3, 4], "f1": 11}, {"f0": [5, 6], "f1": 12}]
+    ctx = [[[1, 7]], [[1, 8]], [[1, 9]]]
+    kinds = {"f0": "seq", "f1": "scalar"}
+
+    def case(members, mcfg, eps, script):
+        return {"family": "shared", "items": ["f0", "f1"], "kinds": kinds, "rows": rows, "ctx": ctx, "order": [], "rc": False,
+                "entry": "shared", "members": members, "mcfg": mcfg, "eps": eps, "script": script, "scalar_tensor": False,
+                "profile": "fixed"}
+
+    def ep(entry, items, rc, sel=(0,)):
+        return {"entry": entry, "items": list(items), "rc": rc, "sel": list(sel)}
+
+    both = [["build", 0], ["build", 1], ["call", 0, [0, 1, 2]], ["call", 1, [0, 1]], ["call", 0, [2]], ["call", 1, [1, 2, 0]]]
+    late = [["build", 0], ["call", 0, [0, 1]], ["build", 1], ["call", 1, [0, 1, 2]], ["call", 0, [1, 2]]]
+    for md in ("none", "before", "after"):
+        for kind, arg in (("mark", 3), ("ctxw", 4)):
+            m = [[md, kind, arg]]
+            for script in (both, late):
+                for a, b in (("wrapper", "wrapper"), ("wrapper", "compose"), ("compose", "wrapper"), ("compose", "compose")):
+                    for first in (True, False):
+                        out.append(case(m, [None], [ep(a, ["f0", "f1"], first), ep(b, ["f0", "f1"], not first)], script))
+                    out.append(case(m, [None], [ep(a, ["f0", "f1"], False), ep(b, ["f1", "f0"], False)], script))
+                    out.append(case(m, [None], [ep(a, ["f0"], True), ep(b, ["f1", "f0"], True)], script))
+                # configured for standalone use (with contexts), wrapped later for a loader without (and the reverse)
+                for first in (True, False):
+                    out.append(case(m, [[["f0", "f1"], first]],
+                                    [ep("single", ["f0", "f1"], first), ep("wrapper", ["f0", "f1"], not first)], script))
+                    out.append(case(m, [[["f0", "f1"], first]],
+                                    [ep("wrapper", ["f1"], not first), ep("single", ["f0", "f1"], first)], script))
+    return out
+
+
 REAL_KEYS = {"mix": ["apply", "use_cutmix", "lambda"], "dino": ["mask"], "ijepa": ["encoder_masks", "predictor_masks"]}
 KEY_IDS = {"apply": 101, "use_cutmix": 102, "lambda": 103, "mask": 111, "encoder_masks": 121, "predictor_masks": 122}
 
@@ -285,6 +436,8 @@ def gen_cases(rng, tier):
         out += probe_ragged_ctx_keys()
     out += [gen_case(rng) for _ in range(n)]
     out += [gen_real_case(rng) for _ in range(n // 6)]
+    out += directed_shared()[::1 if tier == "thorough" else 3]
+    out += [gen_shared_case(rng, big=tier == "thorough" and rng.random() < 0.3) for _ in range(n // 3)]
     if tier == "thorough":
         out += [gen_case(rng, big=True) for _ in range(3000)]
         out += [gen_loader_case(rng) for _ in range(160)]
@@ -296,11 +449,45 @@ def gen_cases(rng, tier):
 def search_cases(rng, tier):
     for c in directed_cases():
         yield c
+    for c in directed_shared():
+        yield c
     for _ in range(30000):
-        yield gen_real_case(rng) if rng.random() < 0.15 else gen_case(rng, big=rng.random() < 0.3)
+        r = rng.random()
+        yield gen_real_case(rng) if r < 0.15 else gen_shared_case(rng) if r < 0.4 else gen_case(rng, big=rng.random() < 0.3)
+
+
+def shrink_shared(c):
+    script = c["script"]
+    # drop a call
+    for i, st in enumerate(script):
+        if st[0] == "call":
+            yield {**c, "script": script[:i] + script[i + 1:]}
+    # drop an entry point that is no longer called (keep the numbering: only its build step goes)
+    called = {st[1] for st in script if st[0] == "call"}
+    for i, st in enumerate(script):
+        if st[0] == "build" and st[1] not in called and c["eps"][st[1]]["entry"] != "single":
+            yield {**c, "script": script[:i] + script[i + 1:]}
+    # smaller batches
+    for i, st in enumerate(script):
+        if st[0] == "call" and len(st[2]) > 1:
+            for j in range(len(st[2])):
+                yield {**c, "script": script[:i] + [["call", st[1], st[2][:j] + st[2][j + 1:]]] + script[i + 1:]}
+    # members no entry point uses any more: plain identity members
+    for k, m in enumerate(c["members"]):
+        if m[1] in ("mark", "ctxw"):
+            yield {**c, "members": c["members"][:k] + [[m[0], "id", 0]] + c["members"][k + 1:]}
+    # a standalone configuration nobody needs
+    for k, cfg in enumerate(c["mcfg"]):
+        if cfg is not None and not any(e["entry"] == "single" and e["sel"] == [k] for e in c["eps"]):
+            yield {**c, "mcfg": c["mcfg"][:k] + [None] + c["mcfg"][k + 1:]}
+    if any(c["ctx"]):
+        yield {**c, "ctx": [[] for _ in c["ctx"]]}
 
 
 def shrink(case):
+    if case.get("family") == "shared":
+        yield from shrink_shared(case)
+        return
     c = case
     for i in range(len(c["members"])):
         if len(c["members"]) > 1 and c["entry"] != "mae":
@@ -380,7 +567,7 @@ def is_ambiguous(case):
 # ---------------------------------------------------------------------------
 # running the implementation
 # ---------------------------------------------------------------------------
-def _build(case, log):
+def _build(case, log, with_members=True):
     import torch
     from kappadata.collators.base.kd_single_collator import KDSingleCollator
     from kappadata.collators.pad_sequences_collator import PadSequencesCollator
@@ -424,7 +611,7 @@ def _build(case, log):
             return None if self.mode == "none" else self.mode
 
         def collate(self, batch, dataset_mode, ctx=None):
-            log.append(["call", self.k])
+            log.append(["call", self.k, dataset_mode])
             if self.kind == "id":
                 return batch
             if self.kind == "ctxw":
@@ -446,7 +633,7 @@ def _build(case, log):
 
         def collate(self, batch, _, ctx=None):
             if self.k is not None:
-                log.append(["call", self.k])
+                log.append(["call", self.k, _])
                 k, self.k = self.k, None       # the recursion of collate() must not log again
                 try:
                     return super().collate(batch, _, ctx)
@@ -476,7 +663,7 @@ def _build(case, log):
         orig = c.collate
 
         def logged(batch, dataset_mode, ctx=None):
-            log.append(["call", k])
+            log.append(["call", k, dataset_mode])
             return orig(batch, dataset_mode, ctx)
         c.collate = logged
         return c
@@ -484,9 +671,17 @@ def _build(case, log):
     mode = " ".join(case["items"])
     mw = ModeWrapper(DS(), mode=mode, return_ctx=case["rc"])
     batch = [mw[i] for i in case["order"]]
-    kw = dict(dataset_mode=mode, return_ctx=case["rc"]) if case["entry"] == "single" else {}
-    members = [LoggedPad(k, **kw) if kind == "pad" else
-               real_member(k, kind, arg, **kw) if kind in REAL_KEYS else Member(k, md, kind, arg, **kw)
+    if not with_members:
+        return mode, batch, None, mw
+
+    def kw_of(k):
+        if "mcfg" in case:          # shared family: every member has its OWN constructor configuration (or none)
+            cfg = case["mcfg"][k]
+            return {} if cfg is None else dict(dataset_mode=" ".join(cfg[0]), return_ctx=cfg[1])
+        return dict(dataset_mode=mode, return_ctx=case["rc"]) if case["entry"] == "single" else {}
+
+    members = [LoggedPad(k, **kw_of(k)) if kind == "pad" else
+               real_member(k, kind, arg, **kw_of(k)) if kind in REAL_KEYS else Member(k, md, kind, arg, **kw_of(k))
                for k, (md, kind, arg) in enumerate(case["members"])]
     return mode, batch, members, mw
 
@@ -675,13 +870,10 @@ def oracle_loader(case, obs):
     return None
 
 
-def run_impl(case):
+def _observe(thunk, case, log):
+    """run one call of an entry point (thunk() -> what it returned) with the default_collate spy installed and put
+    the answer into canonical form; case gives the layout (items, rc, entry) the answer is read against"""
     import kappadata.collators.base.kd_collator_base as kcb
-    from kappadata.collators.base import KDComposeCollator, KDSingleCollatorWrapper
-    log = []
-    mode, batch, members, mw = _build(case, log)
-    if case.get("family") == "loader":
-        return run_loader(case, mode, members, mw)
     n = len(case["items"])
     rc = case["rc"]
     real = kcb.default_collate
@@ -700,29 +892,7 @@ def run_impl(case):
     obs = {}
     kcb.default_collate = spy
     try:
-        if case["entry"] == "compose":
-            out = KDComposeCollator(members, dataset_mode=mode, return_ctx=rc)(batch)
-        elif case["entry"] == "single":
-            out = members[0](batch)
-        elif case["entry"] == "wrapper":
-            out = KDSingleCollatorWrapper(members[0], dataset_mode=mode, return_ctx=rc)(batch)
-        elif case["entry"] == "mae":
-            # the ready-made pipeline of kappadata.common: its own member, only logged and seeded
-            import numpy as np
-            from kappadata.common.collators import MAEFinetuneMixCollator
-            mae = MAEFinetuneMixCollator()
-            assert mae.dataset_mode == mode and mae.return_ctx is False and len(mae.collators) == 1
-            mae.set_rng(np.random.default_rng(case["members"][0][2]))
-            orig = mae.collators[0].collate
-
-            def logged(b, dataset_mode, ctx=None):
-                log.append(["call", 0])
-                return orig(b, dataset_mode, ctx)
-            mae.collators[0].collate = logged
-            out = mae(batch)
-        else:
-            members[0].k = None
-            out = members[0].collate(batch, mode, {})
+        out = thunk()
         if case["entry"] == "direct":
             if rc:
                 ok = isinstance(out, tuple) and len(out) == 2 and isinstance(out[1], dict)
@@ -752,8 +922,164 @@ def run_impl(case):
         obs = {"res": "Other", "msg": type(e).__name__ + ": " + str(e)[:300]}
     finally:
         kcb.default_collate = real
-    obs["trace"] = log
+    obs["trace"] = list(log)
     return obs
+
+
+def run_impl(case):
+    from kappadata.collators.base import KDComposeCollator, KDSingleCollatorWrapper
+    if case.get("family") == "shared":
+        return run_shared(case)
+    log = []
+    mode, batch, members, mw = _build(case, log)
+    if case.get("family") == "loader":
+        return run_loader(case, mode, members, mw)
+    rc = case["rc"]
+
+    def thunk():
+        if case["entry"] == "compose":
+            return KDComposeCollator(members, dataset_mode=mode, return_ctx=rc)(batch)
+        if case["entry"] == "single":
+            return members[0](batch)
+        if case["entry"] == "wrapper":
+            return KDSingleCollatorWrapper(members[0], dataset_mode=mode, return_ctx=rc)(batch)
+        if case["entry"] == "mae":
+            # the ready-made pipeline of kappadata.common: its own member, only logged and seeded
+            import numpy as np
+            from kappadata.common.collators import MAEFinetuneMixCollator
+            mae = MAEFinetuneMixCollator()
+            assert mae.dataset_mode == mode and mae.return_ctx is False and len(mae.collators) == 1
+            mae.set_rng(np.random.default_rng(case["members"][0][2]))
+            orig = mae.collators[0].collate
+
+            def logged(b, dataset_mode, ctx=None):
+                log.append(["call", 0, dataset_mode])
+                return orig(b, dataset_mode, ctx)
+            mae.collators[0].collate = logged
+            return mae(batch)
+        members[0].k = None
+        return members[0].collate(batch, mode, {})
+
+    return _observe(thunk, case, log)
+
+
+# ---------------------------------------------------------------------------
+# family 'shared': construction histories on shared member objects
+# ---------------------------------------------------------------------------
+SIMPLE = (str, int, bool, float, type(None))
+
+
+def _attrs(objs):
+    """the configuration attributes of collator objects: dataset_mode / return_ctx first, then every other plain
+    attribute (the random generator by identity)"""
+    out = []
+    for o in objs:
+        if o is None:
+            out.append(None)
+            continue
+        d = {"dataset_mode": getattr(o, "dataset_mode", "<missing>"), "return_ctx": getattr(o, "return_ctx", "<missing>")}
+        for k, v in sorted(vars(o).items()):
+            if k in d:
+                continue
+            if isinstance(v, SIMPLE):
+                d[k] = v
+            elif k in ("rng", "collator", "collators"):
+                d[k] = "id:" + str([id(e) for e in v] if isinstance(v, list) else id(v))
+        out.append(d)
+    return out
+
+
+def ep_subcase(case, j, order):
+    """entry point j of a shared-member case, seen as an ordinary case of its OWN: its own dataset mode, return_ctx and
+    member list (a standalone member call follows the member's own constructor configuration), on the given samples"""
+    ep = case["eps"][j]
+    sub = {k: v for k, v in case.items() if k not in ("family", "eps", "script", "mcfg")}
+    sub.update(items=list(ep["items"]), rc=ep["rc"], entry=ep["entry"], order=list(order),
+               members=[case["members"][i] for i in ep["sel"]])
+    return sub
+
+
+def run_shared(case):
+    """the member collators are built ONCE; then the script builds entry points around them (compose / wrapper; a
+    standalone member is its own entry point) and calls them, in the given order; after every step the configuration
+    attributes of every member and of every entry point built so far are read"""
+    from kappadata.collators.base import KDComposeCollator, KDSingleCollatorWrapper
+    log = []
+    probe = {**case, "items": case["eps"][0]["items"], "rc": case["eps"][0]["rc"], "entry": "compose", "order": []}
+    _, _, members, _ = _build(probe, log)
+    eps = [None] * len(case["eps"])
+    obs = {"res": "ok", "trace": [], "attrs0": _attrs(members), "steps": []}
+    for step in case["script"]:
+        j = step[1]
+        ep = case["eps"][j]
+        mode = " ".join(ep["items"])
+        st = {"op": step[0], "ep": j}
+        if step[0] == "build":
+            try:
+                if ep["entry"] == "compose":
+                    eps[j] = KDComposeCollator([members[i] for i in ep["sel"]], dataset_mode=mode, return_ctx=ep["rc"])
+                elif ep["entry"] == "wrapper":
+                    eps[j] = KDSingleCollatorWrapper(members[ep["sel"][0]], dataset_mode=mode, return_ctx=ep["rc"])
+                else:
+                    eps[j] = members[ep["sel"][0]]
+            except Exception as e:  # noqa
+                st["err"] = type(e).__name__ + ": " + str(e)[:200]
+        else:
+            sub = ep_subcase(case, j, step[2])
+            _, batch, _, _ = _build(sub, log, with_members=False)
+            del log[:]
+            entry = eps[j]
+            o = _observe(lambda: entry(batch), sub, log)
+            # member numbers -> positions in this entry point's own member list
+            pos = {i: p for p, i in enumerate(ep["sel"])}
+            st["passed"] = [e[2] for e in o["trace"] if e[0] == "call"]
+            o["trace"] = [["call", pos.get(e[1], 100 + e[1])] if e[0] == "call" else e for e in o["trace"]]
+            st["order"] = list(step[2])
+            st["obs"] = o
+        st["members"] = _attrs(members)
+        st["eps"] = _attrs([e if case["eps"][i]["entry"] != "single" else None for i, e in enumerate(eps)])
+        obs["steps"].append(st)
+        obs["trace"] += [e for e in (st.get("obs") or {}).get("trace", [])]
+    return obs
+
+
+def oracle_shared(case, obs):
+    a0 = obs["attrs0"]
+    built = {}
+    for n_step, st in enumerate(obs["steps"]):
+        j = st["ep"]
+        ep = case["eps"][j]
+        mode = " ".join(ep["items"])
+        where = (f"step {n_step} ({'building' if st['op'] == 'build' else 'calling'} entry point {j}: {ep['entry']} over members "
+                 f"{ep['sel']}, dataset_mode={mode!r}, return_ctx={ep['rc']}) of script {case['script']}")
+        if st.get("err"):
+            return f"constructor raised {st['err']} at {where}"
+        # building or calling an entry point does not change the configuration attributes of its member collators
+        for k, (now, was) in enumerate(zip(st["members"], a0)):
+            if now != was:
+                diff = {key: (was.get(key), now.get(key)) for key in set(was) | set(now) if was.get(key) != now.get(key)}
+                return (f"member collator {k} ({case['members'][k]}) had its attributes changed {diff} (before, after) "
+                        f"by {where}")
+        # ... nor those of the other entry points
+        if st["op"] == "build" and ep["entry"] != "single":
+            built[j] = st["eps"][j]
+            if (built[j]["dataset_mode"], built[j]["return_ctx"]) != (mode, ep["rc"]):
+                return f"entry point does not carry the configuration it was given: {built[j]} after {where}"
+        for i, was in built.items():
+            if st["eps"][i] != was:
+                return f"entry point {i} had its attributes changed from {was} to {st['eps'][i]} by {where}"
+        if st["op"] == "call":
+            sub = ep_subcase(case, j, st["order"])
+            wrong = [m for m in st["passed"] if m != mode]
+            if wrong:
+                return (f"the members were handed dataset_mode {wrong[0]!r}, the entry point was configured with "
+                        f"{mode!r}: {where}")
+            msg = oracle(sub, st["obs"])
+            if msg:
+                return (f"an entry point built around SHARED member collators does not behave like a fresh configuration of "
+                        f"its own (dataset_mode, return_ctx, members): {msg} -- at {where}; all entry points: {case['eps']}; "
+                        f"member constructor configurations: {case['mcfg']}")
+    return None
 
 
 # ---------------------------------------------------------------------------
@@ -875,7 +1201,13 @@ def oracle(case, obs):
         return "harness exception: " + obs["harness_exception"] + obs.get("tb", "")
     if case.get("family") == "loader":
         return oracle_loader(case, obs)
+    if case.get("family") == "shared":
+        return oracle_shared(case, obs)
     tr = obs["trace"]
+    passed = [e[2] for e in tr if e[0] == "call" and len(e) > 2]
+    if any(m != " ".join(case["items"]) for m in passed):
+        return (f"a member was handed dataset_mode {[m for m in passed if m != ' '.join(case['items'])][0]!r}, the entry "
+                f"point was configured with {' '.join(case['items'])!r}")
     n_dc = sum(1 for e in tr if e[0] == "DC")
     if case.get("probe") == "ragged_ctx_keys":
         # the property's own words on contexts with different keys: nothing may be lost
@@ -936,7 +1268,13 @@ def oracle(case, obs):
 # rendering to Coq
 # ---------------------------------------------------------------------------
 def coq_applicable(case, obs):
-    if "harness_exception" in obs or is_ambiguous(case) or case.get("family") == "loader":
+    if "harness_exception" in obs:
+        return False
+    if case.get("family") == "shared":
+        return all(st["op"] == "build" and not st.get("err") or
+                   st["op"] == "call" and coq_applicable(ep_subcase(case, st["ep"], st["order"]), st["obs"])
+                   for st in obs["steps"])
+    if is_ambiguous(case) or case.get("family") == "loader":
         return False
     if obs["res"] == "Other":
         return False
@@ -957,7 +1295,40 @@ def _cf(c):
     return C("CMat", Raw(DTYPES[c[1]]), [Nat(d) for d in c[2]], [[list(e) for e in r] for r in c[3]])
 
 
+def mode_ids(case):
+    """dataset modes of a shared-member case -> numbers (their identity is all the model needs)"""
+    ids = {}
+    for cfg in [[ep["items"], ep["rc"]] for ep in case["eps"]] + [c for c in case["mcfg"] if c is not None]:
+        ids.setdefault(" ".join(cfg[0]), len(ids))
+    return ids
+
+
 def coq_case(case, obs):
+    if case.get("family") != "shared":
+        return coq(C("XOne", Raw(_coq_call(case, obs))))
+    ids = mode_ids(case)
+
+    def attr(a):
+        dm, rc = a["dataset_mode"], a["return_ctx"]
+        return (Opt(None if dm is None else Nat(ids.get(dm, 999))), Opt(None if rc is None else bool(rc)))
+
+    def snap(l):
+        return [attr(a) for a in l] or Raw("(@nil mattr)")
+
+    steps = []
+    for st in obs["steps"]:
+        if st["op"] == "build":
+            steps.append(C("OBuild", snap(st["members"])))
+        else:
+            ep = case["eps"][st["ep"]]
+            sub = ep_subcase(case, st["ep"], st["order"])
+            passed = [Nat(ids.get(m, 999)) for m in st["passed"]] or Raw("(@nil nat)")
+            steps.append(C("OCall", Nat(ids[" ".join(ep["items"])]), passed, Raw(_coq_call(sub, st["obs"])),
+                           snap(st["members"])))
+    return coq(C("XHist", snap(obs["attrs0"]), steps or Raw("(@nil hobs)")))
+
+
+def _coq_call(case, obs):
     smp = samples_of(case)
     if case["rc"]:
         raw = C("BRaw", [([_f(v) for v in vals], [(k, v) for k, v in ctx]) for vals, ctx in smp])
@@ -986,7 +1357,42 @@ def coq_case(case, obs):
     return coq((case["rc"], Nat(entry), mks, raw, tr, res))
 
 
+def features_shared(case, obs):
+    yield "entry=shared"
+    yield "family=shared member objects"
+    eps = case["eps"]
+    yield "shared: %d entry points (%s)" % (len(eps), ",".join(sorted(e["entry"] for e in eps)))
+    yield "shared: %d members" % len(case["members"])
+    cfgs = [(" ".join(e["items"]), e["rc"]) for e in eps]
+    if len({m for m, _ in cfgs}) > 1:
+        yield "shared: entry points with different dataset modes"
+    if len({r for _, r in cfgs}) > 1:
+        yield "shared: entry points with different return_ctx"
+    if len(set(cfgs)) < len(cfgs):
+        yield "shared: two entry points with the same configuration"
+    if any(c is not None for c in case["mcfg"]) and any(e["entry"] != "single" for e in eps):
+        yield "shared: a member configured for standalone use is also wrapped / composed"
+    builds = [i for i, st in enumerate(case["script"]) if st[0] == "build"]
+    calls = [i for i, st in enumerate(case["script"]) if st[0] == "call"]
+    if builds and calls and max(builds) > min(calls):
+        yield "shared: an entry point is built after another one was already called"
+    per = {}
+    for st in case["script"]:
+        if st[0] == "call":
+            per[st[1]] = per.get(st[1], 0) + 1
+    if any(v > 1 for v in per.values()):
+        yield "shared: an entry point called several times"
+    for st in obs.get("steps", []):
+        if st["op"] == "call":
+            yield "shared call: res=" + st["obs"].get("res", "?")
+    for m in case["members"]:
+        yield "kind=" + m[1]
+
+
 def features(case, obs):
+    if case.get("family") == "shared":
+        yield from features_shared(case, obs)
+        return
     yield "entry=" + case["entry"]
     yield "family=" + case.get("family", "tiny members")
     yield "rc=%s" % case["rc"]
@@ -1019,6 +1425,12 @@ def features(case, obs):
 
 
 def nontrivial_key(case, obs):
+    if case.get("family") == "shared":
+        if not any(st["op"] == "call" and any(e[0] == "call" for e in st["obs"].get("trace", [])) for st in obs.get("steps", [])):
+            return None
+        return ("shared", tuple((m[0], m[1]) for m in case["members"]), repr(case["mcfg"]),
+                tuple((e["entry"], " ".join(e["items"]), e["rc"], tuple(e["sel"])) for e in case["eps"]),
+                tuple((st[0], st[1]) for st in case["script"]))
     if case.get("family") == "loader":
         return ("loader", case["batch_size"], case["workers"], case["drop_last"], case["entry"], case["rc"],
                 tuple((m[0], m[1]) for m in case["members"]))
